@@ -585,9 +585,13 @@ def relative_permeabilities(
         raise ValueError(msg)
 
     denominator = 1 - params.S_or - params.S_wc - params.S_gc
-    kro = params.k_ro_max * ((saturations["So"] - params.S_or) / denominator) ** params.n_o
-    krw = params.k_rw_max * ((saturations["Sw"] - params.S_wc) / denominator) ** params.n_w
-    krg = params.k_rg_max * ((saturations["Sg"] - params.S_gc) / denominator) ** params.n_g
+    # normalized saturations: below residual a phase is immobile, and it cannot exceed its maximum
+    So_norm = np.clip((saturations["So"] - params.S_or) / denominator, 0, 1)
+    Sw_norm = np.clip((saturations["Sw"] - params.S_wc) / denominator, 0, 1)
+    Sg_norm = np.clip((saturations["Sg"] - params.S_gc) / denominator, 0, 1)
+    kro = params.k_ro_max * So_norm**params.n_o
+    krw = params.k_rw_max * Sw_norm**params.n_w
+    krg = params.k_rg_max * Sg_norm**params.n_g
     k_rel = np.array(
         list(zip(kro, krw, krg)),
         dtype=[(i, np.float64) for i in ("kro", "krw", "krg")],
